@@ -138,7 +138,7 @@ def guards_worker(case):
                         violation('nonzero-when-acausal', 'returns a non-zero term although the observation ends no later '
                                   'than the trial element begins', eng.model_inputs(m))
                 if which == 'col' and extra is not True:
-                    ok, m = eng.prove(z3bool(extra), 'worker=bilform')
+                    ok, m = (True, None) if extra is True else eng.prove(z3bool(extra), 'worker=bilform')
                     if not ok:
                         violation('worker-differs', 'the column worker\'s entry differs from bilform(trial, test)',
                                   eng.model_inputs(m))
@@ -225,7 +225,7 @@ def sign_worker(_):
         for z in zs:
             Fm.append(c01.F_spec(eng, q, z) if z > 0 else SR.const(0))
         spec = FPI * (Fm[0] - Fm[1] + Fm[2] - Fm[3])
-        ok1, m1 = eng.prove(z3bool(val == spec), 'kernel=spec')
+        ok1, m1 = eng.prove_identity(val, spec, 'kernel=spec')
         # concavity of z -> F_q(z) (extended by 0 on z <= 0), instantiated: the inner pair (b-d, a-c) lies between
         # the outer pair (a-d, b-c) and has the same sum, hence Fm(b-d) + Fm(a-c) >= Fm(a-d) + Fm(b-c)
         axiom = z3bool(Fm[0] + Fm[2] >= Fm[3] + Fm[1])
@@ -324,7 +324,7 @@ def convention_worker(case):
             for j, tr in enumerate(trials):
                 want = op.bilform(tr, te)
                 if not (is_literal_zero(mat[i, j]) and is_literal_zero(want)):
-                    ok, m = eng.prove(z3bool(SR.lift(mat[i, j]) == SR.lift(want)), 'mat[i,j]=bilform(trial_j,test_i)')
+                    ok, m = eng.prove_identity(mat[i, j], want, 'mat[i,j]=bilform(trial_j,test_i)')
                     if not ok:
                         bad.append((i, j))
         return mat.shape, bad
